@@ -31,7 +31,8 @@ EXTENDS Integers, Sequences, FiniteSets, TLC
 CONSTANTS FileSeq,      \* the physical files under test (a sequence, so that a file has a number)
           MaxFiles,     \* collections have 1..MaxFiles input paths
           HduForms,     \* forms of hdu_index explored, subset of {"none", "one", "each"}
-          KeyForms      \* forms of wcs_key explored
+          KeyForms,     \* forms of wcs_key explored
+          HduVals       \* the integers a user may write as an HDU index (negative ones count from the end, as in Python)
 
 \* ------------------------------------------------------------------ files
 \* axes = the WCS axes of the HDU in FITS order (NAXIS1 first); xlen = length of every non-celestial axis
@@ -76,8 +77,10 @@ One(x) == [form |-> "one", v |-> <<x>>]
 Each(s) == [form |-> "each", v |-> s]
 
 \* what the user asked for, for the file at list position i (the property's three sentences)
-SelectHdu(spec, i, f) == CASE spec.form = "one" -> spec.v[1]
-                           [] spec.form = "each" -> spec.v[i]
+\* an index as Python / astropy read it: -1 is the last HDU of THIS file
+Resolve(x, f) == IF x < 0 THEN Len(f) + x ELSE x
+SelectHdu(spec, i, f) == CASE spec.form = "one" -> Resolve(spec.v[1], f)
+                           [] spec.form = "each" -> Resolve(spec.v[i], f)
                            [] spec.form = "none" -> FirstImage(f)
 SelectKey(spec, i) == CASE spec.form = "one" -> spec.v[1]
                         [] spec.form = "each" -> spec.v[i]
@@ -92,10 +95,14 @@ ScanOne(paths, hspec, kspec, i) ==
         k == IF kspec.form = "one" THEN kspec.v[1]           \* isinstance(self._wcs_key, str)
              ELSE IF kspec.form # "none" THEN kspec.v[i]
              ELSE " "
-    IN [path |-> i, file |-> paths[i], hdu |-> h, key |-> k]      \* path = list position, file = what is opened there
+    IN [path |-> i, file |-> paths[i], hdu |-> Resolve(h, f), key |-> k]   \* path = list position, file = what is opened there; hdul[h]
 
-\* CollectionLoader.load_paths: `paths = list(str(p) for p in paths)` - the list as given, repeats included
+\* CollectionLoader.load_paths: `paths = list(str(p) for p in paths)` - the list as given, repeats included; a path is
+\* the NAME of one file, never a pattern: whatever characters the file system allows in it
 LoadPaths(paths) == paths
+\* the kind of name physical file p has on disk (the harness owns the concrete spelling of each class)
+NameClasses == <<"plain", "brackets", "wildcards", "dashdots", "nonascii", "spaces">>
+NameClass(p) == NameClasses[((p - 1) % Len(NameClasses)) + 1]
 
 \* command line: `--hdu-index 1,2,0` / `--wcs-key A,B`; the option value is a comma-separated token list.
 \* int(value) succeeds / len(keys) == 1  <=>  exactly one token  => scalar; otherwise a per-file list.
@@ -126,7 +133,7 @@ FileTable == [p \in DOMAIN FileSeq |-> [jj \in DOMAIN FileSeq[p] |-> Content(p, 
 \* what must be observed for an item that stands for (list position, physical file p, HDU j, key k): the 2-D celestial
 \* image (for a cube: plane 0 of every non-celestial axis) with the celestial part of the selected WCS
 Observed(o) == [path |-> o.path, file |-> o.file, hdu |-> o.hdu, key |-> o.key, shape |-> Shape(o.file, o.hdu),
-                val |-> Val(o.file, o.hdu), crval |-> Crval(o.key), crpix |-> Crpix(o.file, o.hdu), cdelt |-> Cdelt(o.file)]
+                nhdu |-> Len(FileSeq[o.file]), val |-> Val(o.file, o.hdu), crval |-> Crval(o.key), crpix |-> Crpix(o.file, o.hdu), cdelt |-> Cdelt(o.file)]
 
 \* ---- what the code does with an array of more than two axes (numpy order = FITS order reversed)
 Rev(sq) == [n \in DOMAIN sq |-> sq[Len(sq) + 1 - n]]
@@ -177,8 +184,8 @@ Forms(forms, ones, eachs) ==
     (IF "each" \in forms THEN {Each(s) : s \in eachs} ELSE {})
 HduSpecs(files) ==
     LET n == Len(files) IN
-    Forms(HduForms, {x \in 0..(MaxHdus - 1) : \A i \in 1..n : x \in ImageHdus(files[i])},
-          {s \in [1..n -> 0..(MaxHdus - 1)] : \A i \in 1..n : s[i] \in ImageHdus(files[i])})
+    Forms(HduForms, {x \in HduVals : \A i \in 1..n : Resolve(x, files[i]) \in ImageHdus(files[i])},
+          {s \in [1..n -> HduVals] : \A i \in 1..n : Resolve(s[i], files[i]) \in ImageHdus(files[i])})
 KeysAt(files, hspec, i) == Hdu(files[i], SelectHdu(hspec, i, files[i])).keys
 KeySpecs(files, hspec) ==
     LET n == Len(files) IN
@@ -212,11 +219,11 @@ Done == Len(dout) = Len(CollPaths) /\ Len(iout) = Len(CollPaths)
 \* ------------------------------------------------------------------ the property, sentence by sentence
 Yielded == {dout[n] : n \in DOMAIN dout} \cup {iout[n] : n \in DOMAIN iout}
 \* "a single HDU index or WCS key applies to every file"
-ScalarAppliesToAll == /\ hs.form = "one" => \A o \in Yielded : o.hdu = hs.v[1]
+ScalarAppliesToAll == /\ hs.form = "one" => \A o \in Yielded : o.hdu = Resolve(hs.v[1], FileSeq[o.file])
                       /\ ks.form = "one" => \A o \in Yielded : o.key = ks.v[1]
 \* "a list supplies the index or key for the file at the same list position" - o.path is a list POSITION of the user's
 \* input; a file named at two positions has two entries and contributes twice
-ListIsPositional == /\ hs.form = "each" => \A o \in Yielded : o.hdu = hs.v[o.path]
+ListIsPositional == /\ hs.form = "each" => \A o \in Yielded : o.hdu = Resolve(hs.v[o.path], FileSeq[o.file])
                     /\ ks.form = "each" => \A o \in Yielded : o.key = ks.v[o.path]
 \* "no selection means the first HDU holding image data" (and the primary WCS)
 NoneIsFirstImage == /\ hs.form = "none" => \A o \in Yielded : LET f == Files(lay)[o.path] IN
@@ -249,7 +256,7 @@ CliFaithful == Fresh =>
 ListIsLocal == (Fresh /\ hs.form = "each") =>
     \A i \in 1..N : \A x \in ImageHdus(Files(lay)[i]) :
         LET h2 == Each([hs.v EXCEPT ![i] = x]) IN
-        \A m \in 1..N : ScanOne(CollPaths, h2, ks, m).hdu = IF m = i THEN x ELSE hs.v[m]
+        \A m \in 1..N : ScanOne(CollPaths, h2, ks, m).hdu = IF m = i THEN x ELSE Resolve(hs.v[m], Files(lay)[m])
 
 KeyListIsLocal == (Fresh /\ ks.form = "each") =>
     \A i \in 1..N : \A x \in KeysAt(Files(lay), hs, i) :
@@ -264,8 +271,8 @@ CaseSpaceComplete(n) ==
         LET files == Files(l)
             m == Len(l) IN
         (\A i \in 1..m : HasImage(files[i])) =>
-            {<<h, k>> : h \in AllSpecs(HduForms, m, 0..(MaxHdus - 1)), k \in AllSpecs(KeyForms, m, AllKeys)} \cap
-                {c \in AllSpecs(HduForms, m, 0..(MaxHdus - 1)) \X AllSpecs(KeyForms, m, AllKeys) : InScope(files, c[1], c[2])}
+            {<<h, k>> : h \in AllSpecs(HduForms, m, HduVals), k \in AllSpecs(KeyForms, m, AllKeys)} \cap
+                {c \in AllSpecs(HduForms, m, HduVals) \X AllSpecs(KeyForms, m, AllKeys) : InScope(files, c[1], c[2])}
             = UNION {{<<h, k>> : k \in KeySpecs(files, h)} : h \in HduSpecs(files)}
 \* the loop finds the first image HDU whenever there is one; otherwise it ends on the last HDU
 GuessIsFirstImage(n) == \A f \in AllLayouts(n) : /\ HasImage(f) => GuessHdu(f) = FirstImage(f)
